@@ -2679,12 +2679,12 @@ hwloc__xml_export_memattrs(hwloc__xml_export_state_t state, hwloc_topology_t top
     char tmp[255];
     unsigned j;
 
-    if (id == HWLOC_MEMATTR_ID_CAPACITY || id == HWLOC_MEMATTR_ID_LOCALITY)
+    imattr = &topology->memattrs[id];
+    if (imattr->iflags & HWLOC_IMATTR_FLAG_CONVENIENCE)
       /* no need to export virtual memattrs */
       continue;
 
-    imattr = &topology->memattrs[id];
-    if (id < HWLOC_MEMATTR_ID_MAX && !imattr->nr_targets)
+    if (id < HWLOC_MEMATTR_ID_MAX && !(topology->flags & HWLOC_TOPOLOGY_FLAG_NO_MEMATTRS) && !imattr->nr_targets)
       /* no need to export standard attributes without any target,
        * their definition is now standardized,
        * the old hwloc importing this XML may recreate these attributes just like it would for a non-imported topology.
